@@ -9,8 +9,9 @@ from harness import common, tlc
 
 
 def registry():
-    from harness.props import reqwait, errorclass, session, dispatch, handshake, versioning, framing, framing_out, lifecycle, host
+    from harness.props import reqwait, errorclass, session, dispatch, handshake, versioning, framing, framing_out, lifecycle, host, http
     return {
+        "C11": http.check_c11,
         "C20": host.check_c20,
         "C16": lifecycle.check_c16,
         "C06": framing_out.check_c06,
